@@ -160,6 +160,12 @@ def run(ctx):
         raise AnalysisBroken("no `lo | hi << 32` assembly found in orcexecutor.c")
 
     d6_reuse_key(db, rep)
+    # the element count a native loop runs over must not depend on stale executor contents (position/n independence of the result) (shared with C03 D8)
+    import emitstate as _es
+    _names = {}
+    for _fld in db.record("OrcExecutor")["fields"]:
+        _names.setdefault(_fld["off"], _fld["name"])
+    _es.check(db.tu("orcprogram-x86"), rep, "D7-COUNTERS-DEFINED", where, offset_names=_names)
 
     # ---- D5: saturation agrees with the reference (doc/opcode_table.xml) --------------------------
     # An opcode whose reference pseudo code is clamp(...) / sign(a) must saturate in the emulator; every other opcode
